@@ -261,6 +261,8 @@ pub fn run(args: &[String]) -> i32 {
             // keys naming scalar special types
             ("type_mappings-go-scalar", Lang::Go, "[go]\npackage = \"p\"\n[go.type_mappings]\nDateTime = \"string\"\nu32 = \"MyU32\"\nString = \"MyString\"\n".into(), Box::new(|t: &str| t.contains("UserId MyU32") && t.contains("MyString"))),
             ("type_mappings-ts-scalar", Lang::TypeScript, "[typescript.type_mappings]\nDateTime = \"MappedDate\"\nu32 = \"MyU32\"\n".into(), Box::new(|t: &str| t.contains("user_id: MyU32"))),
+            // a mapped name is written as configured, also when it is a word the backend would escape in a generated name
+            ("type_mappings-swift-keyword-value", Lang::Swift, "[swift.type_mappings]\nDateTime = \"Any\"\n".into(), Box::new(|t: &str| t.contains("let when: Any\n") || t.contains("let when: Any "))),
             ("type_mappings-python", Lang::Python, "[python.type_mappings]\nDateTime = \"datetime\"\n".into(), Box::new(|t: &str| t.contains("datetime"))),
             ("default_decorators", Lang::Swift, "[swift]\ndefault_decorators = [\"Sendable\", \"Hashable\"]\n[swift.type_mappings]\nDateTime = \"Date\"\n".into(), Box::new(|t: &str| t.contains("struct Item: Codable, Sendable, Hashable"))),
             ("default_generic_constraints", Lang::Swift, "[swift]\ndefault_generic_constraints = [\"Sendable\"]\n[swift.type_mappings]\nDateTime = \"Date\"\n".into(), Box::new(|t: &str| t.contains("Wrapper<T: Codable & Sendable>"))),
